@@ -169,7 +169,8 @@ class Ctx:
         return any(k["tag"] == tag for k in self.known)
 
 
-def corr_run(ctx, name, vh_args, component_desc, nontrivial=lambda c: True, spec_component=None, spec_tags=None, has_oracle=False, max_samples=3):
+def corr_run(ctx, name, vh_args, component_desc, nontrivial=lambda c: True, spec_component=None, spec_tags=None, has_oracle=False, max_samples=3,
+             oracle_prefix=None, diag_component=None, diag_mask=None):
     """run a harness sub-command that writes cases.txt/cases.json(/spec.txt), evaluate the model on
     every case and report differences.
 
@@ -224,8 +225,25 @@ def corr_run(ctx, name, vh_args, component_desc, nontrivial=lambda c: True, spec
             specbad.append(i)
     # property oracle evaluated by the harness itself on the implementation's answers
     for i, c in enumerate(cases):
-        if c.get("oracle_fail") and i not in specbad:
+        of = c.get("oracle_fail") or []
+        if oracle_prefix:
+            of = [o for o in of if o.startswith(oracle_prefix) or o.startswith("Go panic")]
+        if of and i not in specbad:
             specbad.append(i)
+    # a model/implementation difference concerns this property only when it shows in the observables the
+    # property speaks about (bit mask over: 1 result, 2 event stream, 4 world state, 8 tracer queries)
+    if diag_component and diag_mask is not None and mism:
+        dv = run_modelrun([diag_component + " " + lines[i].split(" ", 1)[1] for i in mism])
+        keep = []
+        for i, v in zip(mism, dv):
+            try:
+                bits = (int(v) // 1000000) - 16
+            except ValueError:
+                bits = 15
+            if v == "E" or bits & diag_mask:
+                keep.append(i)
+        ctx.notes.append("%s: %d model/impl differences, %d in this property's observables" % (name, len(mism), len(keep)))
+        mism = keep
     reported = 0
     # 1. the implementation's observation violates the executable specification: concrete failing input
     for i in specbad[:5]:
